@@ -23,6 +23,7 @@ import (
 	"os"
 	"os/exec"
 	"path/filepath"
+	"reflect"
 	"sort"
 	"strconv"
 	"strings"
@@ -31,11 +32,11 @@ import (
 const shimBase = "github.com/Flowpack/prunner/zverif/"
 
 var (
-	repo    = flag.String("repo", "/repo", "repository root")
-	out     = flag.String("out", "/verif/.cache/gen", "output directory")
-	shimDir = flag.String("shim", "/verif/shim", "shim sources")
-	withOS  = flag.Bool("vos", true, "rewrite os -> vos in store/store.go")
-	extra   = flag.String("extra-overlay", "", "JSON file with additional overlay entries (merged)")
+	repo         = flag.String("repo", "/repo", "repository root")
+	out          = flag.String("out", "/verif/.cache/gen", "output directory")
+	shimDir      = flag.String("shim", "/verif/shim", "shim sources")
+	withOS       = flag.Bool("vos", true, "rewrite os -> vos in store/store.go")
+	extra        = flag.String("extra-overlay", "", "JSON file with additional overlay entries (merged)")
 	statusPoints = flag.Bool("statuspoints", false, "make every read / update of a stage status a scheduling point")
 )
 
@@ -249,15 +250,15 @@ func rewritePackage(sp pkgSpec, exports map[string]string, overlay map[string]st
 }
 
 type rewriter struct {
-	fset      *token.FileSet
-	info      *types.Info
-	file      *ast.File
-	imports   map[string]string
-	conc      bool
+	fset       *token.FileSet
+	info       *types.Info
+	file       *ast.File
+	imports    map[string]string
+	conc       bool
 	rangesOnly bool
-	changed   bool
-	needSched bool
-	tmp       int
+	changed    bool
+	needSched  bool
+	tmp        int
 }
 
 func (rw *rewriter) pos(n ast.Node) string { return rw.fset.Position(n.Pos()).String() }
@@ -372,21 +373,94 @@ func (rw *rewriter) stmts(list []ast.Stmt) {
 	}
 }
 
-// exprFuncLits rewrites the bodies of function literals inside an expression or simple statement
+// funcLits rewrites, inside an expression or simple statement, the bodies of function literals and every
+// channel receive (<-ch becomes vsched.Recv(ch)); the children of n are replaced in place.
 func (rw *rewriter) funcLits(n ast.Node) {
-	if n == nil {
+	if n == nil || reflect.ValueOf(n).IsNil() {
 		return
 	}
-	ast.Inspect(n, func(x ast.Node) bool {
-		if fl, ok := x.(*ast.FuncLit); ok {
-			rw.block(fl.Body)
-			return false
+	rw.walk(n)
+}
+
+// expr returns the rewritten form of e
+func (rw *rewriter) expr(e ast.Expr) ast.Expr {
+	if e == nil || reflect.ValueOf(e).IsNil() {
+		return e
+	}
+	switch x := e.(type) {
+	case *ast.FuncLit:
+		rw.block(x.Body)
+		return x
+	case *ast.UnaryExpr:
+		if x.Op == token.ARROW && !rw.rangesOnly {
+			x.X = rw.expr(x.X)
+			rw.needSched = true
+			return &ast.CallExpr{Fun: sel("vsched", "Recv"), Args: []ast.Expr{x.X}}
 		}
-		if u, ok := x.(*ast.UnaryExpr); ok && u.Op == token.ARROW && !rw.rangesOnly {
-			rw.unsupported(u, "channel receive inside an expression")
+	}
+	rw.walk(e)
+	return e
+}
+
+var (
+	exprIface = reflect.TypeOf((*ast.Expr)(nil)).Elem()
+	nodeIface = reflect.TypeOf((*ast.Node)(nil)).Elem()
+)
+
+// walk rewrites every expression reachable from n through AST fields (not through *ast.Object links)
+func (rw *rewriter) walk(n ast.Node) {
+	v := reflect.ValueOf(n)
+	if v.Kind() == reflect.Ptr {
+		if v.IsNil() {
+			return
 		}
-		return true
-	})
+		v = v.Elem()
+	}
+	if v.Kind() != reflect.Struct {
+		return
+	}
+	for i := 0; i < v.NumField(); i++ {
+		f := v.Field(i)
+		rw.walkValue(f)
+	}
+}
+
+func (rw *rewriter) walkValue(f reflect.Value) {
+	switch f.Kind() {
+	case reflect.Interface:
+		if f.IsNil() {
+			return
+		}
+		if f.Type() == exprIface {
+			f.Set(reflect.ValueOf(rw.expr(f.Interface().(ast.Expr))))
+			return
+		}
+		if f.Type().Implements(nodeIface) {
+			if st, ok := f.Interface().(ast.Stmt); ok {
+				// a statement inside an expression only occurs inside a function literal, which expr handles
+				_ = st
+				return
+			}
+			rw.walk(f.Interface().(ast.Node))
+		}
+	case reflect.Ptr:
+		if f.IsNil() || !f.Type().Implements(nodeIface) {
+			return
+		}
+		if _, ok := f.Interface().(*ast.BlockStmt); ok {
+			return
+		}
+		if f.Type().Implements(exprIface) && f.CanSet() {
+			// a concretely typed expression field (e.g. GoStmt.Call, KeyValueExpr inside a typed slot): children only
+			rw.walk(f.Interface().(ast.Node))
+			return
+		}
+		rw.walk(f.Interface().(ast.Node))
+	case reflect.Slice:
+		for j := 0; j < f.Len(); j++ {
+			rw.walkValue(f.Index(j))
+		}
+	}
 }
 
 func (rw *rewriter) stmt(st ast.Stmt) ast.Stmt {
@@ -397,7 +471,7 @@ func (rw *rewriter) stmt(st ast.Stmt) ast.Stmt {
 		if s.Init != nil {
 			s.Init = rw.stmt(s.Init)
 		}
-		rw.funcLits(s.Cond)
+		s.Cond = rw.expr(s.Cond)
 		rw.block(s.Body)
 		if s.Else != nil {
 			s.Else = rw.stmt(s.Else)
@@ -406,24 +480,24 @@ func (rw *rewriter) stmt(st ast.Stmt) ast.Stmt {
 		if s.Init != nil {
 			s.Init = rw.stmt(s.Init)
 		}
-		rw.funcLits(s.Cond)
+		s.Cond = rw.expr(s.Cond)
 		if s.Post != nil {
 			s.Post = rw.stmt(s.Post)
 		}
 		rw.block(s.Body)
 	case *ast.RangeStmt:
-		rw.funcLits(s.X)
+		s.X = rw.expr(s.X)
 		rw.block(s.Body)
 		return rw.rangeStmt(s)
 	case *ast.SwitchStmt:
 		if s.Init != nil {
 			s.Init = rw.stmt(s.Init)
 		}
-		rw.funcLits(s.Tag)
+		s.Tag = rw.expr(s.Tag)
 		for _, c := range s.Body.List {
 			cc := c.(*ast.CaseClause)
-			for _, e := range cc.List {
-				rw.funcLits(e)
+			for i, e := range cc.List {
+				cc.List[i] = rw.expr(e)
 			}
 			rw.stmts(cc.Body)
 		}
@@ -431,6 +505,7 @@ func (rw *rewriter) stmt(st ast.Stmt) ast.Stmt {
 		if s.Init != nil {
 			s.Init = rw.stmt(s.Init)
 		}
+		s.Assign = rw.stmt(s.Assign)
 		for _, c := range s.Body.List {
 			rw.stmts(c.(*ast.CaseClause).Body)
 		}
@@ -453,7 +528,8 @@ func (rw *rewriter) stmt(st ast.Stmt) ast.Stmt {
 	case *ast.DeferStmt:
 		rw.funcLits(s.Call)
 	case *ast.SendStmt:
-		rw.funcLits(s.Value)
+		s.Value = rw.expr(s.Value)
+		s.Chan = rw.expr(s.Chan)
 		if rw.rangesOnly {
 			return s
 		}
@@ -462,28 +538,37 @@ func (rw *rewriter) stmt(st ast.Stmt) ast.Stmt {
 	case *ast.ExprStmt:
 		if u, ok := s.X.(*ast.UnaryExpr); ok && u.Op == token.ARROW && !rw.rangesOnly {
 			rw.needSched = true
-			return &ast.ExprStmt{X: &ast.CallExpr{Fun: sel("vsched", "Recv"), Args: []ast.Expr{u.X}}}
+			return &ast.ExprStmt{X: &ast.CallExpr{Fun: sel("vsched", "Recv"), Args: []ast.Expr{rw.expr(u.X)}}}
 		}
-		rw.funcLits(s.X)
+		s.X = rw.expr(s.X)
 	case *ast.AssignStmt:
 		// v := <-ch   /   v = <-ch
-		if len(s.Rhs) == 1 && len(s.Lhs) == 1 {
+		if len(s.Rhs) == 1 && len(s.Lhs) == 2 {
+			// v, ok := <-ch
 			if u, ok := s.Rhs[0].(*ast.UnaryExpr); ok && u.Op == token.ARROW && !rw.rangesOnly {
 				rw.needSched = true
-				s.Rhs[0] = &ast.CallExpr{Fun: sel("vsched", "Recv"), Args: []ast.Expr{u.X}}
+				s.Rhs[0] = &ast.CallExpr{Fun: sel("vsched", "Recv2"), Args: []ast.Expr{rw.expr(u.X)}}
+				for i, e := range s.Lhs {
+					s.Lhs[i] = rw.expr(e)
+				}
 				return s
 			}
 		}
-		for _, e := range s.Rhs {
-			rw.funcLits(e)
+		for i, e := range s.Rhs {
+			s.Rhs[i] = rw.expr(e)
+		}
+		for i, e := range s.Lhs {
+			s.Lhs[i] = rw.expr(e)
 		}
 	case *ast.ReturnStmt:
-		for _, e := range s.Results {
-			rw.funcLits(e)
+		for i, e := range s.Results {
+			s.Results[i] = rw.expr(e)
 		}
 	case *ast.DeclStmt:
 		rw.funcLits(s.Decl)
-	case *ast.IncDecStmt, *ast.BranchStmt, *ast.EmptyStmt:
+	case *ast.IncDecStmt:
+		s.X = rw.expr(s.X)
+	case *ast.BranchStmt, *ast.EmptyStmt:
 	default:
 		rw.unsupported(st, fmt.Sprintf("statement %T", st))
 	}
@@ -520,6 +605,10 @@ func (rw *rewriter) selectStmt(s *ast.SelectStmt) ast.Stmt {
 	hasDefault := false
 	var caseExprs []ast.Expr
 	var clauses []ast.Stmt
+	// temporaries for a select with a case that binds the received value: the result holder and one
+	// per bound channel (Go evaluates the channel expressions once, in source order, on entering the select)
+	var tmpL, tmpR []ast.Expr
+	var holder *ast.Ident
 	idx := 0
 	for _, c := range s.Body.List {
 		cc := c.(*ast.CommClause)
@@ -529,31 +618,89 @@ func (rw *rewriter) selectStmt(s *ast.SelectStmt) ast.Stmt {
 			clauses = append(clauses, &ast.CaseClause{List: []ast.Expr{&ast.UnaryExpr{Op: token.SUB, X: &ast.BasicLit{Kind: token.INT, Value: "1"}}}, Body: cc.Body})
 			continue
 		}
+		body := cc.Body
 		switch cm := cc.Comm.(type) {
 		case *ast.ExprStmt:
 			u, ok := cm.X.(*ast.UnaryExpr)
 			if !ok || u.Op != token.ARROW {
 				rw.unsupported(cm, "select case")
 			}
-			rw.funcLits(u.X)
+			u.X = rw.expr(u.X)
 			caseExprs = append(caseExprs, &ast.CallExpr{Fun: sel("vsched", "RecvCase"), Args: []ast.Expr{u.X}})
 		case *ast.SendStmt:
-			rw.funcLits(cm.Value)
+			cm.Value = rw.expr(cm.Value)
+			cm.Chan = rw.expr(cm.Chan)
 			caseExprs = append(caseExprs, &ast.CallExpr{Fun: sel("vsched", "SendCase"), Args: []ast.Expr{cm.Chan, cm.Value}})
+		case *ast.AssignStmt:
+			// case v := <-ch / case v, ok := <-ch / case x = <-ch
+			var u *ast.UnaryExpr
+			if len(cm.Rhs) == 1 {
+				if uu, ok := cm.Rhs[0].(*ast.UnaryExpr); ok && uu.Op == token.ARROW {
+					u = uu
+				}
+			}
+			if u == nil || len(cm.Lhs) < 1 || len(cm.Lhs) > 2 {
+				rw.unsupported(cc.Comm, "select case")
+			}
+			if holder == nil {
+				holder = rw.name("Sel")
+				tmpL = append(tmpL, holder)
+				tmpR = append(tmpR, &ast.CallExpr{Fun: sel("vsched", "NewSel")})
+			}
+			ch := rw.name("Ch")
+			tmpL = append(tmpL, ch)
+			tmpR = append(tmpR, rw.expr(u.X))
+			caseExprs = append(caseExprs, &ast.CallExpr{Fun: sel("vsched", "RecvCase"), Args: []ast.Expr{ch}})
+			fn := "Got"
+			if len(cm.Lhs) == 2 {
+				fn = "Got2"
+			}
+			for i, e := range cm.Lhs {
+				cm.Lhs[i] = rw.expr(e)
+			}
+			bind := &ast.AssignStmt{Lhs: cm.Lhs, Tok: cm.Tok, Rhs: []ast.Expr{&ast.CallExpr{Fun: sel("vsched", fn), Args: []ast.Expr{holder, ch}}}}
+			body = append([]ast.Stmt{bind}, body...)
 		default:
-			rw.unsupported(cc.Comm, "select case that binds the received value")
+			rw.unsupported(cc.Comm, "select case")
 		}
-		clauses = append(clauses, &ast.CaseClause{List: []ast.Expr{&ast.BasicLit{Kind: token.INT, Value: strconv.Itoa(idx)}}, Body: cc.Body})
+		clauses = append(clauses, &ast.CaseClause{List: []ast.Expr{&ast.BasicLit{Kind: token.INT, Value: strconv.Itoa(idx)}}, Body: body})
 		idx++
 	}
 	hd := "false"
 	if hasDefault {
 		hd = "true"
 	}
-	args := append([]ast.Expr{ast.NewIdent(hd)}, caseExprs...)
+	if holder == nil {
+		args := append([]ast.Expr{ast.NewIdent(hd)}, caseExprs...)
+		return &ast.SwitchStmt{
+			Tag:  &ast.CallExpr{Fun: sel("vsched", "Select"), Args: args},
+			Body: &ast.BlockStmt{List: clauses},
+		}
+	}
+	args := append([]ast.Expr{holder, ast.NewIdent(hd)}, caseExprs...)
 	return &ast.SwitchStmt{
-		Tag:  &ast.CallExpr{Fun: sel("vsched", "Select"), Args: args},
+		Init: &ast.AssignStmt{Lhs: tmpL, Tok: token.DEFINE, Rhs: tmpR},
+		Tag:  &ast.CallExpr{Fun: sel("vsched", "SelectR"), Args: args},
 		Body: &ast.BlockStmt{List: clauses},
+	}
+}
+
+// rangeChan rewrites `for v := range ch { body }` into a loop over vsched.Recv2
+func (rw *rewriter) rangeChan(s *ast.RangeStmt) ast.Stmt {
+	rw.needSched = true
+	ch, v, ok := rw.name("Ch"), rw.name("Val"), rw.name("Ok")
+	pre := []ast.Stmt{
+		&ast.AssignStmt{Lhs: []ast.Expr{v, ok}, Tok: token.DEFINE, Rhs: []ast.Expr{&ast.CallExpr{Fun: sel("vsched", "Recv2"), Args: []ast.Expr{ch}}}},
+		&ast.IfStmt{Cond: &ast.UnaryExpr{Op: token.NOT, X: ok}, Body: &ast.BlockStmt{List: []ast.Stmt{&ast.BranchStmt{Tok: token.BREAK}}}},
+	}
+	if id, isId := s.Key.(*ast.Ident); s.Key != nil && !(isId && id.Name == "_") {
+		pre = append(pre, &ast.AssignStmt{Lhs: []ast.Expr{s.Key}, Tok: s.Tok, Rhs: []ast.Expr{v}})
+	} else {
+		pre = append(pre, &ast.AssignStmt{Lhs: []ast.Expr{ast.NewIdent("_")}, Tok: token.ASSIGN, Rhs: []ast.Expr{v}})
+	}
+	return &ast.ForStmt{
+		Init: &ast.AssignStmt{Lhs: []ast.Expr{ch}, Tok: token.DEFINE, Rhs: []ast.Expr{s.X}},
+		Body: &ast.BlockStmt{List: append(pre, s.Body.List...)},
 	}
 }
 
@@ -565,8 +712,10 @@ func (rw *rewriter) rangeStmt(s *ast.RangeStmt) ast.Stmt {
 	switch tv.Type.Underlying().(type) {
 	case *types.Map:
 	case *types.Chan:
-		rw.unsupported(s, "range over channel")
-		return s
+		if rw.rangesOnly {
+			return s
+		}
+		return rw.rangeChan(s)
 	default:
 		return s
 	}
